@@ -206,3 +206,20 @@ class Run(object):
             return ('ok', list(r.current_rows) if hasattr(r, 'current_rows') else r)
         except Exception as e:          # noqa
             return ('error', e)
+
+
+
+def arm_race(V, run, budget=1):
+    """general sync-point pre-emption for a Run: at any lock acquire/release of driver code, while the running thread
+    holds no lock, another thread performs one of the enabled events (a response, a timer, a queued task, a socket error)"""
+    from harness import kit
+    pre = kit.Preempter(V, None, lambda *a: run.step('pre%d' % pre.used), only_unlocked=True, budget=budget,
+                        enabled=lambda: bool(run.enabled()))
+    run.rf._callback_lock = kit.SchedLock('callback_lock', pre)
+    for c in run.world.w.conns:
+        c.lock = kit.SchedLock('connection.lock', pre)
+    for pool in run.world.pools.values():
+        if hasattr(pool, '_stream_available_condition'):
+            pool._lock = kit.SchedLock('pool._lock', pre)
+            pool._stream_available_condition = kit.VirtualCondition(pool._lock)
+    return pre
